@@ -1,7 +1,8 @@
 (* C09 — threshold shares always match the dealer's public commitments (Feldman check). *)
 From Coq Require Import ZArith Znumtheory List.
 From Strand Require Import Base.ZUtil Base.Poly Model.Outcome Model.Backend Model.ZBackend Model.Zkp Model.Keymaker
-  Model.Exec Proofs.Laws Proofs.ZLaws Proofs.ZInst Proofs.ThresholdP.
+  Model.Exec Proofs.Laws Proofs.ZLaws Proofs.ZInst Proofs.ThresholdP
+  Base.ZpField Base.Edwards Model.Ristretto Model.RistrettoFast Model.RBackend Proofs.RistrettoGroup Proofs.EdwardsBackend.
 Import ListNotations.
 Open Scope Z_scope.
 
@@ -36,3 +37,11 @@ Example C09_nonvacuous :
   exists s, compute_peer_share B 16 17 (map Z.of_nat (seq 1 17)) = Ok s /\
             b_gpow B s = verification_key_factor B (map (b_gpow B) (map Z.of_nat (seq 1 17))) 17 16.
 Proof. eexists. split; vm_compute; reflexivity. Qed.
+
+(* the curve25519 Edwards group with the ristretto scalar ring: Feldman consistency without hypotheses *)
+Theorem C09_edwards_group : forall (K : Kernel) j t coeffs s, 0 <= j -> (1 <= t)%nat -> coeffs <> [] ->
+  Forall (fun c => 0 <= c) coeffs ->
+  compute_peer_share (AB K) j t coeffs = Ok s ->
+  b_gpow (AB K) s = verification_key_factor (AB K) (map (b_gpow (AB K)) coeffs) t j.
+Proof. intro K. exact (feldman_consistent (AB K) memA (AB_laws K) (AB_from_u64_ok K)). Qed.
+Print Assumptions C09_edwards_group.
